@@ -23,4 +23,6 @@ for c in "$@"; do
 done
 git -C /repo checkout -- .
 git -C /repo status --short | grep -v _version >> $LOG
+# the evidence files now describe the mutated tree: re-run on the clean tree so that what gets committed is valid
+for c in "$@"; do ( cd /verif && ./check $c --tier quick > /dev/null 2>&1 ); done
 cat $LOG
